@@ -143,6 +143,9 @@ def do_query(ctx, b, kind, rel, extra):
             out.append((ctx.show_abs(d), list(subdirs), list(subfiles)))
         return out
     if kind == 'get_size':
+        # sizes of directories are platform specific (see FB/DSL.lean)
+        if b.is_dir(p):
+            return 'dir'
         return b.get_size(p)
     if kind == 'read':
         with b.read_text(p, ctx.cmp(extra)) as fh:
@@ -170,10 +173,11 @@ class _Return(Exception):
     pass
 
 
-def run_func(ctx, idx, b, target, arg, kw):
+def run_func(ctx, idx, b, target, arg, kw, is_root=False):
     f = ctx.funcs[idx]
-    ctx.inv.append([f['name'], ctx.rel(target) if target is not None else None,
-                    wire.enc([arg]), wire.enc(kw)])
+    if not is_root:
+        ctx.inv.append([f['name'], ctx.rel(target) if target is not None else None,
+                        wire.enc([arg]), wire.enc(kw)])
     acc = [['v', arg], ['v', kw], ['v', canon(ctx.versions.get(f['name']))]]
     exec_stmts(ctx, f['stmts'], b, target, acc)
     r = f['ret']
